@@ -175,3 +175,34 @@ def run(ctx):
                'the `?` on %s looks for %s' % (s_.name, 'ToolStarted only: no tool ran, nothing to record' if not other else
                '%s: a mutating call whose run produced no such frame (tool_failed, timeout, unknown tool) leaves NO side-effects frame on the thread' % ', '.join(other)), line=s_.line)
     ctx.floor('C11.5', '`?` on frame searches in summarize_continuity_tool_side_effects', ntry, 1)
+
+    # ---------------------------------------------------------------- C11.6
+    ctx.rule('C11.6', 'the lock outlives every process of the task: a task runner that puts its child into a process group of its own (Command::process_group) must, wherever it kills the child, also signal the group (a foreign kill / killpg with a negated pid, directly or through a workspace helper) — killing the shell leader alone lets its workers go on mutating the workspace after the task ended and the workspace lock was released.')
+    def group_killers():
+        out = set()
+        for p_, g in P.fns.items():
+            for s_ in g.sites():
+                c = s_.callee or ''
+                if c in P.fns or not re.search(r'::(kill|killpg)$', c) or not s_.args:
+                    continue
+                o = g.origin(s_.args[0])
+                if c.endswith('killpg') or (o[0] == 'rv' and o[1].get('k') == 'un' and o[1].get('op') == 'Neg'):
+                    out.add(p_)
+        return out
+    gk = group_killers()
+    n6 = 0
+    for p_, g in sorted(P.fns.items()):
+        if not g.crate.startswith('rip') or not g.calls(r'process::Command::process_group$|CommandExt::process_group$'):
+            continue
+        fam = P.family(p_.split('::{closure')[0])
+        for h in fam:
+            lk = h.calls(r'process::Child::(start_kill|kill)$')
+            gks = [s_ for s_ in h.sites() if s_.callee in gk]
+            for k_ in lk:
+                n6 += 1
+                ctx.touch(h)
+                ok6 = any(h.can_reach(x.bb, k_.bb) or h.can_reach(k_.bb, x.bb) for x in gks)
+                ctx.ob('C11.6', h, 'cancel-kills-the-group', ok6,
+                       'the child was given its own process group (line %s); %s' % (g.calls(r'process_group$')[0].line, 'the kill at this site is accompanied by a signal to the whole group' if ok6 else
+                       'only the leader is killed here (%s) and NO group signal is sent: its descendants keep running — and writing — after the task reported its end and released the workspace lock' % k_.name), line=k_.line)
+    ctx.floor('C11.6', 'kill sites in runners that create a process group', n6, 1)
